@@ -960,16 +960,6 @@ Require Verif.Tie.MavenRange.
 Require Verif.Tie.NugetRange.
 Require Verif.Tie.PypiRange.
 Require Verif.Tie.RpmRange.
-Require Verif.Tie.Loops.AlpmRange.
-Require Verif.Tie.Loops.CargoRange.
-Require Verif.Tie.Loops.ConanRange.
-Require Verif.Tie.Loops.CranRange.
-Require Verif.Tie.Loops.DebianRange.
-Require Verif.Tie.Loops.GolangRange.
-Require Verif.Tie.Loops.HexRange.
-Require Verif.Tie.Loops.NugetRange.
-Require Verif.Tie.Loops.PypiRange.
-Require Verif.Tie.Loops.RpmRange.
 Definition C02_tie_alpine_VersionRange_String := Verif.Tie.AlpineRange.tie_alpine_VersionRange_String.
 Print Assumptions C02_tie_alpine_VersionRange_String.
 Definition C02_tie_alpine_VersionRange_Contains := Verif.Tie.AlpineRange.tie_alpine_VersionRange_Contains.
@@ -1068,64 +1058,4 @@ Definition C02_tie_rpm_satisfiesRPMConstraint_model := Verif.Tie.RpmRange.tie_rp
 Print Assumptions C02_tie_rpm_satisfiesRPMConstraint_model.
 Definition C02_tie_rpm_contains := Verif.Tie.RpmRange.tie_rpm_contains.
 Print Assumptions C02_tie_rpm_contains.
-Definition C02_tie_alpm_matches_closed := Verif.Tie.Loops.AlpmRange.tie_alpm_matches_closed.
-Print Assumptions C02_tie_alpm_matches_closed.
-Definition C02_tie_alpm_contains_closed := Verif.Tie.Loops.AlpmRange.tie_alpm_contains_closed.
-Print Assumptions C02_tie_alpm_contains_closed.
-Definition C02_tie_alpm_contains_closed_model_split := Verif.Tie.Loops.AlpmRange.tie_alpm_contains_closed_model_split.
-Print Assumptions C02_tie_alpm_contains_closed_model_split.
-Definition C02_tie_loops_cargo_countVersionComponents := Verif.Tie.Loops.CargoRange.tie_loops_cargo_countVersionComponents.
-Print Assumptions C02_tie_loops_cargo_countVersionComponents.
-Definition C02_tie_loops_cargo_countVersionComponents_range := Verif.Tie.Loops.CargoRange.loops_cargo_countVersionComponents_range.
-Print Assumptions C02_tie_loops_cargo_countVersionComponents_range.
-Definition C02_tie_compare_closed := Verif.Tie.Loops.CargoRange.compare_closed.
-Print Assumptions C02_tie_compare_closed.
-Definition C02_tie_cargo_caret_closed := Verif.Tie.Loops.CargoRange.tie_cargo_caret_closed.
-Print Assumptions C02_tie_cargo_caret_closed.
-Definition C02_tie_cargo_tilde_closed := Verif.Tie.Loops.CargoRange.tie_cargo_tilde_closed.
-Print Assumptions C02_tie_cargo_tilde_closed.
-Definition C02_tie_cargo_satisfiesConstraint_closed := Verif.Tie.Loops.CargoRange.tie_cargo_satisfiesConstraint_closed.
-Print Assumptions C02_tie_cargo_satisfiesConstraint_closed.
-Definition C02_tie_cargo_satisfiesConstraint_counted := Verif.Tie.Loops.CargoRange.tie_cargo_satisfiesConstraint_counted.
-Print Assumptions C02_tie_cargo_satisfiesConstraint_counted.
-Definition C02_tie_loops_conan_tildeMatch := Verif.Tie.Loops.ConanRange.tie_loops_conan_tildeMatch.
-Print Assumptions C02_tie_loops_conan_tildeMatch.
-Definition C02_tie_loops_conan_caretMatch := Verif.Tie.Loops.ConanRange.tie_loops_conan_caretMatch.
-Print Assumptions C02_tie_loops_conan_caretMatch.
-Definition C02_tie_tildeMatch_total_model := Verif.Tie.Loops.ConanRange.tildeMatch_total_model.
-Print Assumptions C02_tie_tildeMatch_total_model.
-Definition C02_tie_caretMatch_total_model := Verif.Tie.Loops.ConanRange.caretMatch_total_model.
-Print Assumptions C02_tie_caretMatch_total_model.
-Definition C02_tie_conan_contains_closed := Verif.Tie.Loops.ConanRange.tie_conan_contains_closed.
-Print Assumptions C02_tie_conan_contains_closed.
-Definition C02_tie_cran_contains_closed := Verif.Tie.Loops.CranRange.tie_cran_contains_closed.
-Print Assumptions C02_tie_cran_contains_closed.
-Definition C02_tie_debian_satisfiesConstraint_closed := Verif.Tie.Loops.DebianRange.tie_debian_satisfiesConstraint_closed.
-Print Assumptions C02_tie_debian_satisfiesConstraint_closed.
-Definition C02_tie_debian_contains_closed := Verif.Tie.Loops.DebianRange.tie_debian_contains_closed.
-Print Assumptions C02_tie_debian_contains_closed.
-Definition C02_tie_golang_matches_closed := Verif.Tie.Loops.GolangRange.tie_golang_matches_closed.
-Print Assumptions C02_tie_golang_matches_closed.
-Definition C02_tie_golang_contains_closed := Verif.Tie.Loops.GolangRange.tie_golang_contains_closed.
-Print Assumptions C02_tie_golang_contains_closed.
-Definition C02_tie_hex_matches_closed := Verif.Tie.Loops.HexRange.tie_hex_matches_closed.
-Print Assumptions C02_tie_hex_matches_closed.
-Definition C02_tie_hex_contains_closed := Verif.Tie.Loops.HexRange.tie_hex_contains_closed.
-Print Assumptions C02_tie_hex_contains_closed.
-Definition C02_tie_hex_contains_closed_model_ident := Verif.Tie.Loops.HexRange.tie_hex_contains_closed_model_ident.
-Print Assumptions C02_tie_hex_contains_closed_model_ident.
-Definition C02_tie_nuget_matches_closed := Verif.Tie.Loops.NugetRange.tie_nuget_matches_closed.
-Print Assumptions C02_tie_nuget_matches_closed.
-Definition C02_tie_nuget_contains_closed := Verif.Tie.Loops.NugetRange.tie_nuget_contains_closed.
-Print Assumptions C02_tie_nuget_contains_closed.
-Definition C02_tie_nuget_contains_closed_model_num := Verif.Tie.Loops.NugetRange.tie_nuget_contains_closed_model_num.
-Print Assumptions C02_tie_nuget_contains_closed_model_num.
-Definition C02_tie_pypi_matches_closed := Verif.Tie.Loops.PypiRange.tie_pypi_matches_closed.
-Print Assumptions C02_tie_pypi_matches_closed.
-Definition C02_tie_pypi_contains_closed := Verif.Tie.Loops.PypiRange.tie_pypi_contains_closed.
-Print Assumptions C02_tie_pypi_contains_closed.
-Definition C02_tie_rpm_satisfiesRPMConstraint_closed := Verif.Tie.Loops.RpmRange.tie_rpm_satisfiesRPMConstraint_closed.
-Print Assumptions C02_tie_rpm_satisfiesRPMConstraint_closed.
-Definition C02_tie_rpm_contains_closed := Verif.Tie.Loops.RpmRange.tie_rpm_contains_closed.
-Print Assumptions C02_tie_rpm_contains_closed.
 (* ====== ties to the source: END ====== *)
